@@ -50,6 +50,9 @@ class Gen:
         self.sub_bodies = {}
         self.seq_ifs = 0
         self.lit_addrs = self.r.sample(["A1", "A2", "A3", "A4", "A5"], self.r.randint(1, 3))
+        if self.r.random() < self.p.get("feesink", 0.08):
+            # the valid, non-zero address (bytes ..02540be400) that tealer's constants name ZERO_ADDRESS
+            self.lit_addrs.append("FEESINK")
 
     # ---- helpers
     def lab(self, base="L"):
